@@ -10,6 +10,7 @@
 //   IN <hex>            inbound message: update_received(); process()
 //   SEND <id>           application send (NewOrderSingle, ClOrdID=<id>)
 //   BATCH <id>...       send_batch of NewOrderSingles
+//   SENDNI <id>         application send with no_increment=true
 //   HB / TESTREQ <id>   administrative sends
 //   TICK                heartbeat_service()
 //   ADV <ms>            advance the virtual clock
@@ -278,6 +279,12 @@ int main(int argc, char **argv)
 			else if (cmd == "SEND") {
 				std::string id; is >> id;
 				const bool r = S.ses->send(mk_order(id));
+				printf("S %d\n", r ? 1 : 0);
+				reply_events(S.drain());
+			}
+			else if (cmd == "SENDNI") {	// application send that asks the session not to move its number on (send(msg, destroy, 0, no_increment))
+				std::string id; is >> id;
+				const bool r = S.ses->send(mk_order(id), true, 0, true);
 				printf("S %d\n", r ? 1 : 0);
 				reply_events(S.drain());
 			}
